@@ -161,7 +161,10 @@ class BodyMixin:
             b = self._get_body_string()
             if not b:
                 return None
-            return json_mod.loads(b)
+            try:
+                return json_mod.loads(b)
+            except ValueError:  # invalid JSON or not UTF-8
+                self._raise(BodyParsingError('Invalid JSON'), RequestError)
         return None
 
     @cache_in('environ[ ombott.request.post ]', read_only=True)
@@ -180,7 +183,9 @@ class BodyMixin:
         ctype = self.content_type
         if not ctype.startswith('multipart/'):
             if ctype.startswith('application/json'):
-                post.update(self.json)
+                data = self.json
+                if isinstance(data, dict):  # only a JSON object has form fields
+                    post.update(data)
             else:
                 parse_qsl(
                     touni(self._get_body_string(), 'latin1'),
